@@ -104,6 +104,41 @@ func callsOutside(b *ast.BlockStmt, skip *ast.BlockStmt, tracked func(string) bo
 	return out
 }
 
+// guardsOf: the conditions of the if statements enclosing the first call of callee (outermost first)
+func guardsOf(b ast.Node, callee string) []string {
+	var res []string
+	found := false
+	var walk func(n ast.Node, guards []string)
+	walk = func(n ast.Node, guards []string) {
+		if n == nil || found {
+			return
+		}
+		switch v := n.(type) {
+		case *ast.IfStmt:
+			g := append(append([]string{}, guards...), Src(v.Cond))
+			walk(v.Body, g)
+			if v.Else != nil {
+				walk(v.Else, append(append([]string{}, guards...), "!("+Src(v.Cond)+")"))
+			}
+			return
+		case *ast.CallExpr:
+			if Src(v.Fun) == callee {
+				res, found = guards, true
+				return
+			}
+		}
+		ast.Inspect(n, func(x ast.Node) bool {
+			if x == nil || x == n || found {
+				return x == n
+			}
+			walk(x, guards)
+			return false
+		})
+	}
+	walk(b, nil)
+	return res
+}
+
 func contains(l []string, s string) bool {
 	for _, x := range l {
 		if x == s {
@@ -337,6 +372,25 @@ func init() {
 			e.Unknown("GetOrCreate")
 		}
 		emitList(e, "getOrCreateCallsC20", "media.GetOrCreate: tracked calls", gocCalls)
+		// the idle-close task is posted exactly for routes without keepalive whose pull succeeded
+		var taskGuard []string
+		if b := body(gf, "", "GetOrCreate"); b != nil {
+			taskGuard = guardsOf(b, "runZeroConsumersCloseTask")
+		}
+		if len(taskGuard) == 0 {
+			e.Unknown("getOrCreateTaskGuardC20")
+		}
+		emitList(e, "getOrCreateTaskGuardC20", "GetOrCreate: the if conditions enclosing runZeroConsumersCloseTask(s, StreamNoConsumer)", taskGuard)
+		taskArgs := ""
+		if b := body(gf, "", "GetOrCreate"); b != nil {
+			ast.Inspect(b, func(x ast.Node) bool {
+				if ce, ok := x.(*ast.CallExpr); ok && Src(ce.Fun) == "runZeroConsumersCloseTask" && len(ce.Args) == 2 {
+					taskArgs = Src(ce.Args[0]) + ", " + Src(ce.Args[1])
+				}
+				return true
+			})
+		}
+		e.P("def getOrCreateTaskArgs : String := %s", LeanStr(taskArgs))
 
 		// ---- the requesters: a nil stream becomes a not-found answer
 		type caller struct{ file, recv, fn, lean string }
